@@ -182,11 +182,15 @@ def build_dispersion(d: dict):
     import fdtdx
 
     poles = []
+
+    def tup(v):  # per-axis parameters are stored as 3-lists in the JSON spec
+        return tuple(float(x) for x in v) if isinstance(v, (list, tuple)) else v
+
     for p in d["poles"]:
         if p["kind"] == "lorentz":
-            poles.append(fdtdx.LorentzPole(resonance_frequency=p["w0"], damping=p["gamma"], delta_epsilon=p["deps"]))
+            poles.append(fdtdx.LorentzPole(resonance_frequency=tup(p["w0"]), damping=tup(p["gamma"]), delta_epsilon=tup(p["deps"])))
         elif p["kind"] == "drude":
-            poles.append(fdtdx.DrudePole(plasma_frequency=p["wp"], damping=p["gamma"]))
+            poles.append(fdtdx.DrudePole(plasma_frequency=tup(p["wp"]), damping=tup(p["gamma"])))
         else:
             raise env.HarnessError(f"unknown pole {p}")
     return fdtdx.DispersionModel(poles=tuple(poles))
